@@ -33,6 +33,10 @@ let rx_comp pat =
   match Hashtbl.find_opt comp_tbl p with
   | Some b -> b
   | None -> let r = Stubs.regex p "" 1 in let b = r.(0) <> 2 in Hashtbl.replace comp_tbl p b; b
+(* tie of Dl/LiteralMatcher.v: every distinct (pattern, string) pair the model hands to the regex oracle is also
+   given to the Gallina literal matcher; the results must be equal *)
+let lm_total = ref 0 and lm_agree = ref 0 and lm_bad = ref ""
+let hex_of_string s = String.concat "" (List.init (String.length s) (fun i -> Printf.sprintf "%02x" (Char.code s.[i])))
 let rx_exec pat str =
   let p = string_of_bytes pat and s = string_of_bytes str in
   match Hashtbl.find_opt exec_tbl (p, s) with
@@ -41,8 +45,16 @@ let rx_exec pat str =
     let r = Stubs.regex p s 3 in
     let g i = if r.(i) < 0 then n_of_int 0 else n_of_int r.(i) in
     let v = if r.(0) = 0 then Some ((g 3, g 4), (g 5, g 6)) else None in
+    if r.(0) <> 2 then begin
+      incr lm_total;
+      if lit_exec pat str = v then incr lm_agree
+      else if !lm_bad = "" then lm_bad := hex_of_string p ^ ":" ^ hex_of_string s
+    end;
     if Hashtbl.length exec_tbl > 200000 then Hashtbl.reset exec_tbl;
     Hashtbl.replace exec_tbl (p, s) v; v
+let lm_report () =
+  let r = Printf.sprintf "LM=%d/%d%s" !lm_agree !lm_total (if !lm_bad = "" then "" else " BAD=" ^ !lm_bad) in
+  lm_total := 0; lm_agree := 0; lm_bad := ""; r
 
 type cs = { ht : int; doff : int; lens : int array; flags0 : int array; data : string array;
             starts : int array; ridx_t : int list; flags : int array; hdrs : string list;
@@ -158,7 +170,7 @@ let () = iter_lines (fun line ->
         for a = 1 to nb - 1 do chk [a] done;
         if parts = "all2" then
           for a = 1 to nb - 1 do for b = a + 1 to nb - 1 do chk [a; b] done done;
-        Printf.printf "B[%s] N=%d AG=%d D[%s] | SPEC -\n" bl !total !agree !first
+        Printf.printf "B[%s] N=%d AG=%d D[%s] | SPEC %s\n" bl !total !agree !first (lm_report ())
       end else begin
         let cuts =
           if parts = "w" then []
@@ -169,7 +181,7 @@ let () = iter_lines (fun line ->
             List.map int_of_string (String.split_on_char '.' (String.sub parts 1 (String.length parts - 1)))
           else failwith "parts" in
         let (l, _) = one cuts in
-        Printf.printf "%s | SPEC -\n" l
+        Printf.printf "%s | SPEC %s\n" l (lm_report ())
       end
     with Failure m -> Printf.printf "BADCASE %s\n" m)
   | _ -> print_endline "BADCASE")
